@@ -558,7 +558,21 @@ class DeserializationMethodVisitor(
                 settings.errors.unexpected_property,
             )
 
-        return self._factory(factory, dict, validation=False)
+        def factory_with_free_validators(
+            constraints: Optional[Constraints], validators: Sequence[Validator]
+        ) -> DeserializationMethod:
+            # validators which are not registered on a class (passed per call or in
+            # metadata) have no known dependencies: they cannot be scheduled by them
+            # and are all executed on the constructed object
+            method = factory(
+                constraints, [v for v in validators if v.owner is not None]
+            )
+            free_validators = [v for v in validators if v.owner is None]
+            if free_validators:
+                method = ValidatorMethod(method, free_validators, self.aliaser)
+            return method
+
+        return self._factory(factory_with_free_validators, dict, validation=False)
 
     def primitive(self, cls: Type) -> DeserializationMethodFactory:
         def factory(constraints: Optional[Constraints], _) -> DeserializationMethod:
